@@ -135,6 +135,15 @@ func runProp(spec *PropSpec, tier, mutant string, noMut bool) (code int) {
 		}
 		c.Pkgs, c.Prog, c.Fset = pkgs, prog, prog.Fset
 		c.index()
+		if os.Getenv("VERIF_LOCKSET_DISCOVER") != "" {
+			var dp []string
+			for _, p := range c.Pkgs {
+				if strings.HasPrefix(p.PkgPath, "mosn.io/mosn/") {
+					dp = append(dp, strings.TrimPrefix(p.PkgPath, "mosn.io/mosn/"))
+				}
+			}
+			discoverLocksets(c, dp)
+		}
 		spec.Run(c)
 		if c.Whole && spec.Thorough != nil {
 			spec.Thorough(c)
